@@ -343,3 +343,26 @@ func ClaimNode(nodePub []byte, did common.Uint168, n uint64) interfaces.Transact
 	return mk(common2.TxVersion09, common2.CRCouncilMemberClaimNode, payload.CurrentCRClaimDPoSNodeVersion,
 		&payload.CRCouncilMemberClaimNode{NodePublicKey: nodePub, CRCouncilCommitteeDID: did}, n, nil, nil, nil)
 }
+
+// CloseProposalTx builds a CloseProposal proposal (no budgets, no recipient)
+// asking to terminate the proposal `target`.
+func CloseProposalTx(owner, member *Key, target common.Uint256, draft []byte, n uint64) (interfaces.Transaction, common.Uint256) {
+	p := &payload.CRCProposal{
+		ProposalType:       payload.CloseProposal,
+		OwnerKey:           owner.Pub,
+		CRCouncilMemberDID: member.DID,
+		DraftHash:          common.Hash(draft),
+		DraftData:          draft,
+		TargetProposalHash: target,
+	}
+	ver := payload.CRCProposalVersion01
+	buf := new(bytes.Buffer)
+	p.SerializeUnsigned(buf, ver)
+	sig := owner.Sign(buf.Bytes())
+	p.Signature = sig
+	common.WriteVarBytes(buf, sig)
+	p.CRCouncilMemberDID.Serialize(buf)
+	p.CRCouncilMemberSignature = member.Sign(buf.Bytes())
+	tx := mk(common2.TxVersion09, common2.CRCProposal, ver, p, n, nil, nil, []*program.Program{{Code: owner.Code}})
+	return tx, p.Hash(ver)
+}
